@@ -16,10 +16,10 @@ P = c01.P
 prepare = c01.prepare
 
 KINDS4 = ["trunc", "trunc1", "flip", "rand", "extend", "nsub0", "nsubbig", "nsub+1", "toggle", "desc-swap", "desc-huge",
-          "desc-unknown", "desc-nofactor", "desc-deep", "desc-af-nest", "empty", "ones", "zeros"]
+          "desc-unknown", "desc-nofactor", "desc-deep", "desc-af-nest", "empty", "ones", "zeros", "desc-illformed", "desc-illformed"]
 KINDSM = ["m-ok", "m-trunc", "m-len0", "m-lenbig", "m-s4len", "m-s3len", "m-s1len", "m-flip", "m-nested", "m-prefix", "m-rand", "m-s2", "m-odd"]
 
-def mutate4(rng, kind, ed, flag, nsub, descs, s4):
+def mutate4(rng, kind, ed, flag, nsub, descs, s4, B=None, D=None):
     s4 = bytearray(s4)
     if kind == "trunc":
         s4 = s4[:rng.randrange(len(s4) + 1)]
@@ -53,6 +53,11 @@ def mutate4(rng, kind, ed, flag, nsub, descs, s4):
     elif kind == "desc-af-nest":
         k = rng.choice([9, 17, 64, 65, 256, 257, 300])
         descs = [rng.choice([204001, 204001, 204007]), 31021] * k + descs[:2]
+    elif kind == "desc-illformed":
+        # Section 3 lists that are not templates (spans past the end, overlapping spans at two and three levels,
+        # missing factors, Y = 256 ...), in front of data whose first octets read as small replication counts
+        descs = templates.mutate_illformed(rng, descs[:rng.choice([0, 1, 2, len(descs)])], B, D)
+        s4 = bytearray(rng.choice([[3, 3, 3, 3], [1, 1, 1, 1], [7, 2, 5, 1], [0, 3, 0, 3], [255, 3, 3, 3]])) + s4
     elif kind == "empty": s4 = bytearray()
     elif kind == "ones": s4 = bytearray([255] * rng.choice([1, 8, len(s4) + 5]))
     elif kind == "zeros": s4 = bytearray([0] * rng.choice([1, 8, len(s4) + 5]))
@@ -215,7 +220,7 @@ def scenarios(rng, tier, runner):
         ed = int(tm[1]); descs = [int(d) for d in tm[2:]]
         flag, nsub, s4 = int(enc[0]), int(enc[1]), bytes.fromhex(enc[2]) if enc[2] != "-" else b""
         for kind in rng.sample(KINDS4, 4):
-            f2, n2, d2, b2 = mutate4(rng, kind, ed, flag, nsub, list(descs), s4)
+            f2, n2, d2, b2 = mutate4(rng, kind, ed, flag, nsub, list(descs), s4, *P[s.meta["tables"]])
             ls = ["T.use " + s.meta["tables"],
                   "ds.decode %d 1 %d %d 0 0 %s %s" % (ed, f2, n2, ",".join("%06d" % d for d in d2), b2.hex() or "-")]
             for k in range(min(n2, 3)):
